@@ -725,7 +725,10 @@ class Interp:
             self.env[st.name] = Closure(st, self)
         elif isinstance(st, (ast.Global, ast.Nonlocal)):
             # reads and in-place operations go to the shared object anyway; REBINDING such a name is not modelled
-            self.outer_names = getattr(self, "outer_names", set()) | set(st.names)
+            if isinstance(st, ast.Global):
+                self.outer_names = getattr(self, "outer_names", set()) | set(st.names)
+            else:
+                self.nonlocal_names = getattr(self, "nonlocal_names", set()) | set(st.names)
         elif isinstance(st, ast.Raise):
             exc = st.exc.func if isinstance(st.exc, ast.Call) else st.exc
             raise RaisedInFragment(A.dotted(exc) if exc is not None else "<re-raise>")
@@ -734,8 +737,13 @@ class Interp:
 
     def assign(self, t, v):
         if isinstance(t, ast.Name):
+            if t.id in getattr(self, "nonlocal_names", ()):
+                raise Undecided(f"rebinding of the nonlocal name {t.id}")
             if t.id in getattr(self, "outer_names", ()):
-                raise Undecided(f"rebinding of the global/nonlocal name {t.id}")
+                shared = self.externals.get("__module_env__")
+                if shared is None:
+                    raise Undecided(f"rebinding of the global/nonlocal name {t.id}")
+                shared[t.id] = v  # module-level state of the interpreted world: later calls see the new binding
             self.env[t.id] = v
         elif isinstance(t, ast.Attribute) and isinstance(t.value, ast.Name) and t.value.id == "self":
             self.selfattrs[self._mangle(t.attr)] = v
